@@ -372,3 +372,204 @@ Proof.
     + apply in_map. apply in_all_indices. now apply rho_in_bounds.
     + pose proof (in_bounds_length _ _ Hidx) as Hli. rewrite map_length in Hli. now apply proj_combo_at.
 Qed.
+
+(* ---------- "exactly once": with duplicate-free value lists the base combinations are pairwise different ---------- *)
+Lemma wf_groups_inj_hyp it gs : wf_groups it gs = true -> Forall (fun kv => NoDup (snd kv)) it ->
+  Forall (fun g => g <> [] /\ forall k, In k g -> NoDup (col it k) /\ length (col it k) = glen it g) gs.
+Proof.
+  intros Hwf Hv. destruct (wf_groups_parts _ _ Hwf) as [_ [_ Hfg]]. apply Forall_forall. intros g Hg.
+  rewrite forallb_forall in Hfg. destruct (wf_group_dget _ _ (Hfg g Hg)) as [Hne Hdd]. split; [exact Hne|].
+  intros k Hk. split; [now apply col_NoDup|now apply Hdd].
+Qed.
+
+Theorem spec_base_distinct s :
+  wf_sweep s = true -> Forall (fun kv => NoDup (snd kv)) (items s) -> nodup_ceq (spec_base s).
+Proof.
+  intros Hwf Hv. destruct (wf_sweep_parts _ Hwf) as [Hg _]. unfold spec_base. destruct (items s) as [|kv it'] eqn:E; [exact I|].
+  rewrite <- E in *. apply nodup_ceq_map; [apply all_indices_NoDup|]. intros j j' Hj Hj' Hc.
+  apply in_all_indices in Hj. apply in_all_indices in Hj'.
+  refine (combo_at_inj (items s) (groups s) _ (wf_groups_inj_hyp _ _ Hg Hv) j j' Hj Hj' Hc).
+  now destruct (wf_groups_parts _ _ Hg) as [_ [H _]].
+Qed.
+
+(* ---------- dims = permuted plain item keys: the same combinations (as finite maps) ---------- *)
+Definition chosen (it : dict (list val)) (ks : list str) (c : combo) : Prop :=
+  (forall k, In k ks -> exists i, i < length (col it k) /\ dget c k = Some (nth i (col it k) dflt))
+  /\ (forall k, ~ In k ks -> dget c k = None).
+
+Lemma concat_singles_In ks k : In k (concat (singles ks)) <-> In k ks.
+Proof. now rewrite concat_singles. Qed.
+
+Lemma chosen_combo_at it ks : NoDup ks -> forall idx,
+  in_bounds (map (glen it) (singles ks)) idx = true -> chosen it ks (combo_at it (singles ks) idx).
+Proof.
+  intros Hnd idx Hb. split.
+  - revert idx Hb. induction ks as [|k0 ks IH]; intros idx Hb k Hk; [contradiction|].
+    destruct idx as [|i idx]; [discriminate|]. cbn [singles map] in Hb. fold (singles ks) in Hb.
+    rewrite in_bounds_cons in Hb. apply andb_true_iff in Hb as [Hi Hb]. apply Nat.ltb_lt in Hi. cbn [glen] in Hi.
+    inversion Hnd as [|? ? Hn Hnd']; subst. rewrite dget_combo_at. cbn [singles map look mem_str]. fold (singles ks).
+    destruct (str_eqb k k0) eqn:E; cbn [orb].
+    + apply str_eqb_eq in E. subst. exists i. split; [assumption|reflexivity].
+    + destruct Hk as [->|Hk]; [now rewrite str_eqb_refl in E|]. rewrite <- dget_combo_at. now apply IH.
+  - intros k Hk. rewrite dget_combo_at. apply look_None. now rewrite concat_singles.
+Qed.
+
+Lemma chosen_exists it ks c : NoDup ks -> chosen it ks c ->
+  exists idx, in_bounds (map (glen it) (singles ks)) idx = true /\ ceq (combo_at it (singles ks) idx) c.
+Proof.
+  intros Hnd [H1 H2].
+  assert (Hex : exists idx, in_bounds (map (glen it) (singles ks)) idx = true
+                            /\ forall k, In k ks -> look it (singles ks) idx k = dget c k).
+  { clear H2. induction ks as [|k0 ks IH].
+    - exists []. split; [reflexivity|]. intros k [].
+    - inversion Hnd as [|? ? Hn Hnd']; subst. destruct (H1 k0 (or_introl eq_refl)) as [i0 [Hi0 Hd0]].
+      destruct (IH Hnd' (fun k Hk => H1 k (or_intror Hk))) as [idx [Hb Hl]].
+      exists (i0 :: idx). split.
+      + cbn [singles map]. fold (singles ks). rewrite in_bounds_cons. cbn [glen].
+        rewrite (proj2 (Nat.ltb_lt _ _) Hi0). exact Hb.
+      + intros k Hk. cbn [singles map look mem_str]. fold (singles ks). destruct (str_eqb k k0) eqn:E; cbn [orb].
+        * apply str_eqb_eq in E. subst. now rewrite Hd0.
+        * destruct Hk as [->|Hk]; [now rewrite str_eqb_refl in E|]. now apply Hl. }
+  destruct Hex as [idx [Hb Hl]]. exists idx. split; [exact Hb|]. intros k. rewrite dget_combo_at.
+  destruct (in_dec (list_eq_dec Ascii.ascii_dec) k ks) as [Hin|Hnin].
+  - now apply Hl.
+  - rewrite H2 by assumption. apply look_None. now rewrite concat_singles.
+Qed.
+
+Lemma chosen_perm it ks ks' c : (forall k, In k ks <-> In k ks') -> chosen it ks c -> chosen it ks' c.
+Proof.
+  intros H [H1 H2]. split.
+  - intros k Hk. apply H1. now apply H.
+  - intros k Hk. apply H2. intros Hin. apply Hk. now apply H.
+Qed.
+
+Lemma ceq_chosen it ks c c' : ceq c c' -> chosen it ks c -> chosen it ks c'.
+Proof.
+  intros Hc [H1 H2]. split.
+  - intros k Hk. destruct (H1 k Hk) as [i [Hi Hd]]. exists i. split; [assumption|]. now rewrite <- Hc.
+  - intros k Hk. rewrite <- Hc. now apply H2.
+Qed.
+
+Lemma base_singles_incl it ks ks' : NoDup ks -> NoDup ks' -> (forall k, In k ks <-> In k ks') ->
+  forall x, In x (map (combo_at it (singles ks)) (all_indices (map (glen it) (singles ks)))) ->
+  exists y, In y (map (combo_at it (singles ks')) (all_indices (map (glen it) (singles ks')))) /\ ceq x y.
+Proof.
+  intros Hnd Hnd' Hp x Hx. apply in_map_iff in Hx as [idx [<- Hidx]]. apply in_all_indices in Hidx.
+  pose proof (chosen_combo_at it ks Hnd idx Hidx) as Hch. apply (chosen_perm it ks ks' _ Hp) in Hch.
+  destruct (chosen_exists it ks' _ Hnd' Hch) as [idx' [Hb Hc]].
+  exists (combo_at it (singles ks') idx'). split; [apply in_map; now apply in_all_indices|now apply ceq_sym].
+Qed.
+
+(* the documented combinations of s (dims order) and those of the same sweep with dims omitted (item order,
+   what the code enumerates) are the same finite maps *)
+Theorem base_permuted s d :
+  wf_sweep s = true -> dims s = Some d -> dims_is_keyset d (dkeys (items s)) = true ->
+  (forall x, In x (spec_base s) -> exists y, In y (spec_base (set_dims s None)) /\ ceq x y)
+  /\ (forall y, In y (spec_base (set_dims s None)) -> exists x, In x (spec_base s) /\ ceq y x).
+Proof.
+  intros Hwf Hd Hk. destruct (wf_sweep_parts _ Hwf) as [Hg _]. destruct (wf_groups_parts _ _ Hg) as [Hnk [Hng _]].
+  destruct (keyset_all_str _ _ Hk) as [Hs Hincl].
+  assert (Hgs : groups s = singles (dstr_keys d)) by (unfold groups; now rewrite Hd).
+  assert (Hgs' : groups (set_dims s None) = singles (dkeys (items s))) by reflexivity.
+  rewrite Hgs, concat_singles in Hng.
+  assert (Hp : forall k, In k (dstr_keys d) <-> In k (dkeys (items s))).
+  { intros k. split; [|apply Hincl]. intros Hin. apply (wf_groups_keys _ _ Hg). rewrite Hgs, concat_singles. exact Hin. }
+  unfold spec_base. rewrite Hgs, Hgs'. cbn [set_dims items]. destruct (items s) as [|kv it'] eqn:E.
+  - split; intros ? [].
+  - rewrite <- E in *. split.
+    + now apply base_singles_incl.
+    + apply base_singles_incl; [assumption|assumption|]. intros k. symmetry. apply Hp.
+Qed.
+
+(* ---------- ... and so are the finished lists, for callables that depend on the finite map only ---------- *)
+Definition ext_sweep (s : sweep) : Prop :=
+  Forall (fun kf : str * deriver => forall c c', ceq c c' -> snd kf c = snd kf c') (dl s)
+  /\ (forall c c', ceq c c' -> exf s c = exf s c').
+
+Definition res_rel (r r' : result (option combo)) : Prop :=
+  match r, r' with Ok x, Ok y => opt_ceq x y | Err e, Err e' => e = e' | _, _ => False end.
+
+Lemma spec_derive_ceq ds : Forall (fun kf : str * deriver => forall c c', ceq c c' -> snd kf c = snd kf c') ds ->
+  forall c c', ceq c c' ->
+  match spec_derive c ds, spec_derive c' ds with Ok x, Ok y => ceq x y | Err e, Err e' => e = e' | _, _ => False end.
+Proof.
+  induction 1 as [|[k f] ds Hf _ IH]; intros c c' Hc; cbn [spec_derive].
+  - exact Hc.
+  - cbn [snd] in Hf. rewrite (Hf c c' Hc). destruct (f c') as [v|]; cbn [bind]; [|reflexivity].
+    apply IH. intros x. rewrite !dget_dset. destruct (str_eqb x k); [reflexivity|apply Hc].
+Qed.
+
+Lemma spec_finish_norm' s c : spec_finish s c = nfinish (norm s) c.
+Proof. apply spec_finish_norm. Qed.
+
+Lemma finish_ceq s c c' : ext_sweep s -> ceq c c' -> res_rel (spec_finish s c) (spec_finish s c').
+Proof.
+  intros [Hd He] Hc. rewrite !spec_finish_norm. unfold nfinish. cbn [norm n_k n_d n_e].
+  assert (Hk : ceq (nconsts (kl s) c) (nconsts (kl s) c')).
+  { intros x. rewrite !dget_nconsts. now rewrite Hc. }
+  pose proof (spec_derive_ceq (dl s) Hd _ _ Hk) as H.
+  destruct (spec_derive (nconsts (kl s) c) (dl s)) as [x|]; destruct (spec_derive (nconsts (kl s) c') (dl s)) as [y|];
+    cbn [bind]; try contradiction; [|exact H].
+  rewrite (He x y H). destruct (exf s y) as [[|]|]; cbn [bind res_rel opt_ceq]; auto.
+Qed.
+
+Lemma in_somes_mapM {A} (f : A -> result (option combo)) l R v :
+  mapM f l = Ok R -> (In v (somes R) <-> exists y, In y l /\ f y = Ok (Some v)).
+Proof.
+  revert R; induction l as [|x l IH]; cbn [mapM]; intros R H.
+  - injection H as <-. cbn. split; [intros []|intros [y [[] _]]].
+  - destruct (f x) as [r|] eqn:E; cbn [bind] in H; [|discriminate].
+    destruct (mapM f l) as [R'|]; cbn [bind] in H; [|discriminate]. injection H as <-.
+    specialize (IH R' eq_refl). destruct r as [w|]; cbn [somes In].
+    + rewrite IH. split.
+      * intros [<-|[y [Hy1 Hy2]]]; [exists x; split; [now left|assumption]|exists y; split; [now right|assumption]].
+      * intros [y [[<-|Hy1] Hy2]]; [left; congruence|right; exists y; now split].
+    + rewrite IH. split.
+      * intros [y [Hy1 Hy2]]. exists y. split; [now right|assumption].
+      * intros [y [[<-|Hy1] Hy2]]; [congruence|exists y; now split].
+Qed.
+
+Lemma mapM_all_ok {A B} (f : A -> result B) l : (forall y, In y l -> exists r, f y = Ok r) -> exists R, mapM f l = Ok R.
+Proof.
+  induction l as [|x l IH]; intros H; [now exists []|]. destruct (H x (or_introl eq_refl)) as [r Hr].
+  destruct (IH (fun y Hy => H y (or_intror Hy))) as [R HR]. exists (r :: R). cbn [mapM]. now rewrite Hr, HR.
+Qed.
+
+Lemma spec_list_incl s B B' L :
+  ext_sweep s -> (forall y, In y B' -> exists x, In x B /\ ceq y x) ->
+  (do l <- mapM (spec_finish s) B; Ok (somes l)) = Ok L ->
+  exists L', (do l <- mapM (spec_finish s) B'; Ok (somes l)) = Ok L'
+             /\ forall v', In v' L' -> exists v, In v L /\ ceq v' v.
+Proof.
+  intros Hext Hincl HL. destruct (mapM (spec_finish s) B) as [R|] eqn:ER; cbn [bind] in HL; [|discriminate].
+  injection HL as <-.
+  assert (Hok : forall x, In x B -> exists r, spec_finish s x = Ok r).
+  { intros x Hx. destruct (mapM_Ok_inv _ _ _ ER x Hx) as [r [Hr _]]. now exists r. }
+  assert (Hok' : forall y, In y B' -> exists r, spec_finish s y = Ok r).
+  { intros y Hy. destruct (Hincl y Hy) as [x [Hx Hc]]. destruct (Hok x Hx) as [r Hr].
+    pose proof (finish_ceq s y x Hext Hc) as H. rewrite Hr in H. destruct (spec_finish s y) as [r'|]; [now exists r'|contradiction]. }
+  destruct (mapM_all_ok _ _ Hok') as [R' HR']. rewrite HR'. cbn [bind]. exists (somes R'). split; [reflexivity|].
+  intros v' Hv'. apply (in_somes_mapM _ _ _ _ HR') in Hv' as [y [Hy Hfy]].
+  destruct (Hincl y Hy) as [x [Hx Hc]]. pose proof (finish_ceq s y x Hext Hc) as H. rewrite Hfy in H.
+  destruct (spec_finish s x) as [[v|]|] eqn:Ex; cbn [res_rel opt_ceq] in H; try contradiction.
+  exists v. split; [|exact H]. apply (in_somes_mapM _ _ _ _ ER). exists x. now split.
+Qed.
+
+(* in the one case where the code does not follow the order of dims, list() still consists of exactly the
+   documented combinations (as finite maps) *)
+Theorem generate_permuted_same_set s d L :
+  wf_sweep s = true -> dims s = Some d -> dims_is_keyset d (dkeys (items s)) = true ->
+  ext_sweep s -> spec_list s = Ok L ->
+  exists L', generate s = Ok L'
+    /\ (forall v', In v' L' -> exists v, In v L /\ ceq v' v)
+    /\ (forall v, In v L -> exists v', In v' L' /\ ceq v v').
+Proof.
+  intros Hwf Hd Hk Hext HL. destruct (generate_permuted s d Hwf Hd Hk) as [Hg _].
+  destruct (base_permuted s d Hwf Hd Hk) as [H1 H2]. rewrite Hg.
+  assert (Hsf : forall c, spec_finish (set_dims s None) c = spec_finish s c) by reflexivity.
+  unfold spec_list in *. rewrite (mapM_ext_in _ (spec_finish s)) by (intros; apply Hsf).
+  destruct (spec_list_incl s _ _ L Hext H2 HL) as [L' [HL' Hin]].
+  exists L'. split; [exact HL'|]. split; [exact Hin|].
+  destruct (spec_list_incl s _ _ L' Hext H1 HL') as [L2 [HL2 Hin2]].
+  rewrite HL in HL2. injection HL2 as <-. exact Hin2.
+Qed.
